@@ -144,7 +144,18 @@ static std::string incdec_forms(const std::string& form, uintptr_t addr)
   return "OK ret=" + addr_s(ret) + " obj=" + addr_s((const void*)p.UNSAFE_unverified());
 }
 
-// arith <ptee> <form> <p> <nk> <n> [plain|tainted|tvol]
+static uint8_t* g_adv_cell = nullptr;
+static uint8_t g_adv_bytes[8];
+static size_t g_adv_len = 0;
+static bool g_adv_fired = false;
+static void adv_hook(const char* site)
+{
+  if (std::strcmp(site, "be.xlate") != 0 || g_adv_fired) return;
+  g_adv_fired = true;
+  std::memcpy(g_adv_cell, g_adv_bytes, g_adv_len);
+}
+
+// arith <ptee> <form> <p> <nk> <n> [plain|tainted|tvol|pcell0|pcellm]
 static std::string op_arith(const toks_t& t)
 {
   std::string out = "HARNESS-ERROR arith";
@@ -159,7 +170,28 @@ static std::string op_arith(const toks_t& t)
     with_idx_kind(t[4], [&](auto nk) {
       using N = typename decltype(nk)::type;
       N n = parse_int<N>(t[5]);
-      if (wrapk == "plain") {
+      if (wrapk == "pcell0" || wrapk == "pcellm") {
+        // the POINTER operand lives in a cell of sandbox memory (a tainted_volatile<T*>); right after its representation
+        // has been fetched for the first time the adversary nulls the cell (pcell0) or points it at the start of the
+        // sandbox (pcellm): the operation must be the one of the value fetched - one fetch
+        auto pp = sbA.malloc_in_sandbox<T*>();
+        *pp = mkptr<T>(addr);
+        g_adv_cell = reinterpret_cast<uint8_t*>(pp.UNSAFE_unverified());
+        g_adv_fired = false;
+        typename Cfg::rep_t newrep = wrapk == "pcell0" ? 0 : 64;
+        std::memcpy(g_adv_bytes, &newrep, sizeof(newrep));
+        g_adv_len = sizeof(newrep);
+        rlbox::verif_backend_hook = adv_hook;
+        const void* ret = nullptr;
+        try {
+          if (t[2] == "add") ret = (*pp + n).UNSAFE_unverified();
+          else if (t[2] == "sub") ret = (*pp - n).UNSAFE_unverified();
+          else if constexpr (std::is_class_v<T>) ret = (&((*pp)[n].a)).UNSAFE_unverified();
+          else ret = (&(*pp)[n]).UNSAFE_unverified();
+        } catch (...) { rlbox::verif_backend_hook = nullptr; throw; }
+        rlbox::verif_backend_hook = nullptr;
+        out = "OK ret=" + addr_s(ret) + " obj=" + std::to_string(addr);
+      } else if (wrapk == "plain") {
         out = arith_forms<T, N>(t[2], addr, n);
       } else if constexpr (std::is_same_v<N, int> || std::is_same_v<N, unsigned long> ||
                            std::is_same_v<N, long> || std::is_same_v<N, unsigned int>) {
